@@ -20,7 +20,7 @@
 EXTENDS Integers, Sequences, FiniteSets, TLC
 
 CONSTANTS Keys, MaxChanges, MaxFails, MaxOther, RoundSize, MinB, MaxB,
-          Variant      \* "fixed" | "dropRetry" (defect Q) | "staleRetry" (defect P)
+          Variant      \* "fixed" | "dropRetry" (defect Q) | "staleRetry" (defect P) | "driftOrig" (defect R)
 
 VARIABLES obj, del, trev, nsid,      \* the table
           cur,                       \* reconciler cursor: changes up to this revision have been consumed
@@ -32,8 +32,9 @@ VARIABLES obj, del, trev, nsid,      \* the table
           nproc,                     \* operations performed in this round
           nchg, nfail, noth,         \* budgets used
           prog,                      \* [rev, lw]
-          attempted                  \* ghost: k -> highest revision passed to an operation
-vars == << obj, del, trev, nsid, cur, phase, snap, results, retry, target, nproc, nchg, nfail, noth, prog, attempted >>
+          attempted,                 \* ghost: k -> highest revision passed to an operation
+          first                      \* ghost: k -> revision at which the current change of k was first attempted
+vars == << obj, del, trev, nsid, cur, phase, snap, results, retry, target, nproc, nchg, nfail, noth, prog, attempted, first >>
 
 NoObj == [live |-> FALSE, ver |-> 0, st |-> "D", sid |-> 0, rev |-> 0, other |-> 0]
 Put(f, k, v) == [x \in (DOMAIN f) \cup {k} |-> IF x = k THEN v ELSE f[x]]
@@ -46,7 +47,7 @@ Init ==
     /\ obj = [k \in Keys |-> NoObj] /\ del = [k \in Keys |-> 0] /\ trev = 0 /\ nsid = 0
     /\ cur = 0 /\ phase = "idle" /\ snap = [obj |-> obj, del |-> del, trev |-> 0]
     /\ results = << >> /\ retry = << >> /\ target = << >> /\ nproc = 0
-    /\ nchg = 0 /\ nfail = 0 /\ noth = 0 /\ prog = [rev |-> 0, lw |-> 0] /\ attempted = << >>
+    /\ nchg = 0 /\ nfail = 0 /\ noth = 0 /\ prog = [rev |-> 0, lw |-> 0] /\ attempted = << >> /\ first = << >>
 
 \* ------------------------------------------------------------- environment
 UserUpsert(k) ==
@@ -54,28 +55,28 @@ UserUpsert(k) ==
     /\ obj' = [obj EXCEPT ![k] = [live |-> TRUE, ver |-> nchg + 1, st |-> "P", sid |-> nsid + 1, rev |-> trev + 1, other |-> 0]]
     /\ del' = [del EXCEPT ![k] = 0]
     /\ trev' = trev + 1 /\ nsid' = nsid + 1 /\ nchg' = nchg + 1
-    /\ UNCHANGED << cur, phase, snap, results, retry, target, nproc, nfail, noth, prog, attempted >>
+    /\ UNCHANGED << cur, phase, snap, results, retry, target, nproc, nfail, noth, prog, attempted, first >>
 
 UserDelete(k) ==
     /\ nchg < MaxChanges /\ obj[k].live
     /\ obj' = [obj EXCEPT ![k] = [NoObj EXCEPT !.ver = obj[k].ver]]
     /\ del' = [del EXCEPT ![k] = trev + 1]
     /\ trev' = trev + 1 /\ nchg' = nchg + 1
-    /\ UNCHANGED << nsid, cur, phase, snap, results, retry, target, nproc, nfail, noth, prog, attempted >>
+    /\ UNCHANGED << nsid, cur, phase, snap, results, retry, target, nproc, nfail, noth, prog, attempted, first >>
 
 \* another writer (e.g. a second reconciler storing its own status): new revision, same content, same status
 OtherWrite(k) ==
     /\ noth < MaxOther /\ obj[k].live
     /\ obj' = [obj EXCEPT ![k].rev = trev + 1, ![k].other = @ + 1]
     /\ trev' = trev + 1 /\ noth' = noth + 1
-    /\ UNCHANGED << del, nsid, cur, phase, snap, results, retry, target, nproc, nchg, nfail, prog, attempted >>
+    /\ UNCHANGED << del, nsid, cur, phase, snap, results, retry, target, nproc, nchg, nfail, prog, attempted, first >>
 
 \* time passes only while the reconciler waits and some queued retry is not due yet
 Tick ==
     /\ phase = "idle"
     /\ \E k \in DOMAIN retry : retry[k].queued /\ retry[k].left > 0
     /\ retry' = [k \in DOMAIN retry |-> IF retry[k].queued /\ retry[k].left > 0 THEN [retry[k] EXCEPT !.left = @ - 1] ELSE retry[k]]
-    /\ UNCHANGED << obj, del, trev, nsid, cur, phase, snap, results, target, nproc, nchg, nfail, noth, prog, attempted >>
+    /\ UNCHANGED << obj, del, trev, nsid, cur, phase, snap, results, target, nproc, nchg, nfail, noth, prog, attempted, first >>
 
 \* --------------------------------------------------------------- reconciler
 \* the changes of the snapshot after the cursor: keys with their (revision, isDelete)
@@ -89,14 +90,17 @@ RoundStart ==
     /\ phase = "idle" /\ (Work \/ RetryDue)
     /\ snap' = [obj |-> obj, del |-> del, trev |-> trev]
     /\ phase' = "changes" /\ nproc' = 0 /\ results' = << >>
-    /\ UNCHANGED << obj, del, trev, nsid, cur, retry, target, nchg, nfail, noth, prog, attempted >>
+    /\ UNCHANGED << obj, del, trev, nsid, cur, retry, target, nchg, nfail, noth, prog, attempted, first >>
 
 \* outcome of an operation: failure only while the budget lasts
 Outcomes == IF nfail < MaxFails THEN {TRUE, FALSE} ELSE {TRUE}
 
 AddRetry(r, k, rev, orig, isdel, ver, other) ==
-    LET n == (IF k \in DOMAIN r THEN r[k].n ELSE 0) + 1 IN
-    Put(r, k, [left |-> Backoff(n), n |-> n, rev |-> rev, orig |-> orig, isdel |-> isdel, ver |-> ver,
+    LET n == (IF k \in DOMAIN r THEN r[k].n ELSE 0) + 1
+        \* an item that is still remembered is the retry of the same change and keeps its original revision
+        \* (defect R: it took the revision of the reconciler's own last status write)
+        o == IF k \in DOMAIN r /\ Variant # "driftOrig" THEN r[k].orig ELSE orig IN
+    Put(r, k, [left |-> Backoff(n), n |-> n, rev |-> rev, orig |-> o, isdel |-> isdel, ver |-> ver,
                other |-> other, queued |-> TRUE])
 
 \* process the next change of the snapshot (in revision order)
@@ -105,18 +109,19 @@ ProcessChange ==
     /\ LET P == Pending(snap, cur) IN
        IF P = {} \/ nproc >= RoundSize
        THEN /\ phase' = "commit1"
-            /\ UNCHANGED << cur, results, retry, target, nproc, nfail, attempted >>
+            /\ UNCHANGED << cur, results, retry, target, nproc, nfail, attempted, first >>
        ELSE LET c == CHOOSE x \in P : \A y \in P : x[2] <= y[2]
                 k == c[1] IN
             /\ cur' = c[2]
             /\ phase' = "changes"
             /\ IF ~c[3] /\ snap.obj[k].st # "P"
                THEN \* not pending: skipped (failures are the business of the retry queue)
-                    UNCHANGED << results, retry, target, nproc, nfail, attempted >>
+                    UNCHANGED << results, retry, target, nproc, nfail, attempted, first >>
                ELSE \E ok \in Outcomes :
                       /\ nfail' = IF ok THEN nfail ELSE nfail + 1
                       /\ nproc' = nproc + 1
                       /\ attempted' = Put(attempted, k, c[2])
+                      /\ first' = Put(first, k, c[2])
                       /\ IF c[3]
                          THEN /\ target' = IF ok THEN Del(target, k) ELSE target
                               /\ retry' = IF ok THEN Del(retry, k) ELSE AddRetry(Del(retry, k), k, c[2], c[2], TRUE, 0, 0)
@@ -160,7 +165,7 @@ CommitStatus ==
             /\ prog' = [rev |-> IF cur > prog.rev THEN cur ELSE prog.rev,
                         lw |-> LET F == { retry'[k].orig : k \in DOMAIN retry' } IN
                                IF F = {} THEN 0 ELSE CHOOSE m \in F : \A y \in F : m <= y]
-    /\ UNCHANGED << del, cur, snap, target, nproc, nchg, nfail, noth, attempted >>
+    /\ UNCHANGED << del, cur, snap, target, nproc, nchg, nfail, noth, attempted, first >>
 
 \* retries that are due: popped from the queue (but remembered until cleared or re-added)
 ProcessRetry ==
@@ -182,7 +187,7 @@ ProcessRetry ==
                  ELSE /\ target' = IF ok THEN Put(target, k, it.ver) ELSE target
                       /\ retry' = [retry EXCEPT ![k].queued = FALSE]
                       /\ results' = Put(results, k, [ver |-> it.ver, rev |-> it.rev, sid |-> 0 - 1, ok |-> ok, other |-> it.other])
-    /\ UNCHANGED << obj, del, trev, nsid, cur, snap, nchg, noth, prog >>
+    /\ UNCHANGED << obj, del, trev, nsid, cur, snap, nchg, noth, prog, first >>
 
 Env == \E k \in Keys : UserUpsert(k) \/ UserDelete(k) \/ OtherWrite(k)
 Rec == RoundStart \/ ProcessChange \/ CommitStatus \/ ProcessRetry
@@ -209,6 +214,15 @@ Inv_C16_Backoff == \A k \in DOMAIN retry : retry[k].left <= MaxB /\ (retry[k].le
 
 \* C16: progress never runs ahead of what was attempted
 Inv_C16_Progress == prog.rev <= cur
+
+\* C16: the retry queue remembers a failing change under the revision at which it was first attempted, whatever
+\* the number of retries, and the watermark published after a round is the oldest of them; hence the documented
+\* loop "until prog.rev >= R and (prog.lw = 0 or prog.lw > R)" never takes a failing change <= R for reconciled
+Inv_C16_LowWatermark ==
+    /\ \A k \in DOMAIN retry : k \in DOMAIN first /\ retry[k].orig = first[k]
+    /\ phase = "idle" =>
+          \A k \in Keys : obj[k].live /\ obj[k].st = "E" =>
+                (k \in DOMAIN retry /\ prog.lw # 0 /\ prog.lw <= first[k])
 
 \* C14: once the budgets are used up the system converges and stays converged
 Quiet == nchg = MaxChanges /\ nfail = MaxFails /\ noth = MaxOther
